@@ -22,7 +22,7 @@ fn gen_list(rng: &mut Rng, own: &[String], foreign: &[String]) -> (Vec<String>, 
         }
     }
     rng.shuffle(&mut l);
-    let kind = rng.below(10);
+    let kind = rng.below(11);
     let label = match kind {
         0 => "subset-permutation",
         1 => { if !l.is_empty() { let k = rng.below(l.len()); let d = l[k].clone(); let at = rng.below(l.len() + 1); l.insert(at, d); } "duplicate" }
@@ -39,6 +39,17 @@ fn gen_list(rng: &mut Rng, own: &[String], foreign: &[String]) -> (Vec<String>, 
         }
         7 => { let at = rng.below(l.len() + 1); l.insert(at, String::new()); "empty-segment" }
         8 => { l = own.to_vec(); rng.shuffle(&mut l); "all-permuted" }
+        9 => {
+            // an own disclosure re-spelled in the standard base64 alphabet ('-' as '+', '_' as '/'): another string
+            let cands: Vec<String> = own.iter().filter(|d| d.contains('-') || d.contains('_')).cloned().collect();
+            if !cands.is_empty() {
+                let d = rng.pick(&cands).clone();
+                l.retain(|x| x != &d);
+                let at = rng.below(l.len() + 1);
+                l.insert(at, d.replace('-', "+").replace('_', "/"));
+            }
+            "respelled-alphabet"
+        }
         _ => { l.clear(); for d in own { if rng.chance(1, 2) { l.push(d.clone()); } } "subset-in-order" }
     };
     (l, label)
@@ -122,6 +133,37 @@ pub fn run_case(ctx: &mut Ctx, case: &Value) {
                 Out::Err(..) => {}
             }
         }
+    }
+    if case.get("lists").is_none() { redeclared_alg(ctx, &ic, case); }
+}
+
+/// the same signed claims under another declared digest algorithm: every digest is then a digest of nothing the
+/// holder has, and the token's own disclosures must reveal nothing - also right after the original token was
+/// verified with them (nothing learnt about a string under one algorithm holds under another)
+fn redeclared_alg(ctx: &mut Ctx, ic: &IssuedCase, case: &Value) {
+    if ic.reference || ic.kb || ic.marks.is_empty() { return; }
+    let other = if ic.sd_alg == "sha-512" { "sha-384" } else { "sha-512" };
+    let mut payload2 = ic.payload.clone();
+    payload2["_sd_alg"] = json!(other);
+    let mut header = sdjwt::Header::new(ic.alg.clone());
+    header.typ = Some("sd-jwt".to_string());
+    let jwt2 = match real::sign(&header, &payload2, &keys::enc_key(keys::family(&ic.alg), 0)) { Out::Ok(j) => j, _ => return };
+    let own: Vec<String> = ic.marks.iter().map(|m| ic.disc_of(m.id)).collect();
+    let dec = keys::dec_key(keys::family(&ic.alg), 0);
+    let validation = ic.validation();
+    let _warm = real::verifier_verify(&format!("{}~{}~", ic.jwt, own.join("~")), &dec, &validation, None);
+    let vv = real::verifier_verify(&format!("{}~{}~", jwt2, own.join("~")), &dec, &validation, None);
+    ctx.report.bump(&format!("redeclared-alg:{}", vv.class()));
+    let mut c2 = case.clone();
+    c2["redeclared_alg"] = json!(other);
+    let nothing = projects(ctx, ic, &[vec![]]);
+    let real_out = vv.clone().map(|(_, c)| (c, None));
+    let cmp = Compare { prop: "C03", entry: "Verifier::verify", case: &c2 };
+    compare_restoration(ctx, &cmp, other, &payload2, &own, &real_out, None, None, false);
+    match &vv {
+        Out::Ok((_, c)) if c != &nothing[0] => ctx.report.diff("property", "Verifier::verify", "Verifier::verify:reveals-under-redeclared-digest-algorithm", &c2, json!({"real": c, "expected": nothing[0]})),
+        Out::Panic(site) => ctx.report.diff("property", "Verifier::verify", &format!("Verifier::verify:panic:{}", site.split(' ').next().unwrap_or("")), &c2, json!({"panic": site})),
+        _ => {}
     }
 }
 
